@@ -10,93 +10,103 @@ CFG = {'streams': [{'name': 'C20',
               'n_quick': 120,
               'n_thorough': 1200,
               'what_fails': 'rendering of the error of a failing run (ExecutionError::display_pretty and the plain Display) against '
-                            'Model/ErrRender.v: 52 display_pretty panicked; 51 the real text lacks, for some statement context of the chain, one of '
-                            'the three citations path:row+1:col+1: (statement, stanza, matched node) or the text of a cited line that exists in the '
-                            'given DSL/source text (both judged on the real text alone); 61 the pretty text differs from render_pretty of the walked '
-                            "chain; 62 the plain Display differs from render_plain; 63 the model's own text does not show a context (excluded by the "
-                            'theorems); 64 the harness could not read a Context from its Debug rendering; 65 the chain obtained by chain_of_error '
-                            "(Model/ErrChain.v) from the MODEL's error of the same run (node kind/position from the recorded tree; statement, cause "
-                            'and Context::Other texts taken from the real error) is not the real chain: number and order of entries, one/two '
-                            'statement contexts per entry, locations, node position and kind; 66 the statement text of a context '
-                            '(StatementContext::statement = format!("{}", stmt)) is not display_stmt (Model/AstDisplay.v) of the model statement '
-                            "found at the context's statement location by stmt_at (or there is none); 69 two statements of the loaded file share a "
-                            'location (locs_unique, the hypothesis of the *_disp theorems, is false); 2 / 5 / 7 the model run succeeds / panics / '
-                            'runs out of fuel',
+                            'Model/ErrRender.v: 52 display_pretty panicked; 51 the real text lacks, for some statement context of the chain, '
+                            'one of the three citations path:row+1:col+1: (statement, stanza, matched node) or the text of a cited line that '
+                            'exists in the given DSL/source text (both judged on the real text alone); 61 the pretty text differs from '
+                            "render_pretty of the walked chain; 62 the plain Display differs from render_plain; 63 the model's own text does "
+                            'not show a context (excluded by the theorems); 64 the harness could not read a Context from its Debug rendering; 65 the '
+                            "chain obtained by chain_of_error (Model/ErrChain.v) from the MODEL's error of the same run (node kind/position from "
+                            'the recorded tree; statement, cause and Context::Other texts taken from the real error) is not the real chain: '
+                            'number and order of entries, one/two statement contexts per entry, locations, node position and kind; 2 / 5 / 7 '
+                            'the model run succeeds / panics / runs out of fuel'
+                            '; 66 the statement text of a context (StatementContext::statement = format!("{}", stmt)) is not display_stmt (Model/As'
+                            "tDisplay.v) of the model statement found at the context's statement location by stmt_at (or there is none); 69 two sta"
+                            'tements of the loaded file share a location (locs_unique, the hypothesis of the *_disp theorems, is false)',
               'model_only_codes': [61, 62, 64, 66, 69]},
              {'name': 'C20d',
               'n_quick': 150,
               'n_thorough': 1500,
-              'what_fails': 'Display impls of ast.rs against Model/AstDisplay.v on every statement (any depth) of a parsed file, walked on the REAL '
-                            'AST in stanza order / preorder: 66 format!("{}", statement) differs from display_stmt of the dumped statement (or the '
-                            'number of statements differs from file_stmts); 67 the Display of a scan arm / attribute shorthand differs from '
-                            'display_scan_arm / display_shorthand; 68 the variable text recorded in an SNode differs from display_variable; 69 two '
-                            'statements of the parsed file share a location (locs_unique false); 71 an identifier printed in a statement header of a '
-                            'parsed file contains a character below U+0020 (hypothesis of display_stmt_single_line_partial); 72 the REAL text of a '
-                            'statement contains a character below U+0020 (judged on the real text alone: the statement text is one line); 70 a '
-                            'hand-written program of the stream does not parse',
+              'what_fails':
+                            'Display impls of ast.rs against Model/AstDisplay.v on every statement (any depth) of a parsed file, walked on the REAL'
+                            ' AST in stanza order / preorder: 66 format!("{}", statement) differs from display_stmt of the dumped statement (or the'
+                            ' number of statements differs from file_stmts); 67 the Display of a scan arm / attribute shorthand differs from displa'
+                            'y_scan_arm / display_shorthand; 68 the variable text recorded in an SNode differs from display_variable; 69 two statem'
+                            'ents of the parsed file share a location (locs_unique false); 71 an identifier printed in a statement header of a pars'
+                            'ed file contains a character below U+0020 (hypothesis of display_stmt_single_line_partial); 72 the REAL text of a stat'
+                            'ement contains a character below U+0020 (judged on the real text alone: the statement text is one line); 70 a hand-wri'
+                            'tten program of the stream does not parse',
               'model_only_codes': [66, 67, 68, 69, 70, 71]}],
  'rule': 'C20r: the failing runs of C20 (30% re-laid out: tabs, statements behind non-ASCII literals), rendered with paths containing spaces, '
          'non-ASCII and colons, and with the real DSL/source text (70%), a truncated one (rows missing), a CRLF copy or an unrelated text; '
-         'non-trivial = two-statement context, a Context::Other entry, a missing row or a non-ASCII path. C20: generated programs with exactly one '
-         'injected runtime fault (type error, unknown function, conflicting attribute, undefined edge, bad arity, eager faults in if/scan/for '
-         'sources) at a random statement position and depth, plus naturally failing generated programs; both modes; non-trivial = fault at depth >= '
-         '1 or a two-statement (conflict) context. C20d: 7 hand-written programs (every statement and expression kind, strings with quotes, '
-         'backslashes, newlines, controls, DEL, and non-ASCII characters that <str as Debug> escapes: U+0301, U+200B, U+FEFF, U+2028, U+00A0, '
-         'U+E000, U+0085) and the texts of the C07 generators (AST-directed incl. nested comprehensions, odd identifiers and string constants; '
-         're-laid-out gen_program) and of the execution generator, parsed WITHOUT the checker; non-trivial = nested statements and a string constant '
-         '/ scan pattern with a character that needs escaping or is not ASCII',
- 'explanation': 'Theorems. STRICT: the error of a run is the bare cancellation or comes from one (stanza, match) block and sits in ONE statement '
-                "context carrying the stanza's location, the block's full-match node and the location of a statement s' of that stanza (any nesting "
-                "depth) that failed directly: the cause (possibly inside Context::Other for scan arms) is the error returned by a run of s' itself "
-                'which carries no statement context, while the error of a nested block is never without statement context — so the cited statement '
-                'is the innermost failing one (strict_error_stmt_loc, strict_file_error_stmt_loc, strict_nested_error_not_plain). LAZY: an error of '
-                'both phases is the bare cancellation or sits in one statement context, or two for a conflict (duplicate attribute / scoped '
-                'variable); the cause is unwrapped and EVERY context is a valid context of the run: stanza location and first full-match node of an '
-                'executed (stanza, match) pair and the location of a statement of that stanza at any depth (the failing statement or one enclosing '
-                'it); no non-cancellation error escapes without a statement context (lazy_error_ctx_valid, lazy_run_error_ctx_valid; state invariant '
-                'lazy_ctx_invariant). The innermost context wins. LAZY, WHICH statement is cited (all programs, states and fuels): a deferred '
-                'edge/attr/print that fails when evaluated cites exactly its own debug info around a cause without statement context, a duplicate '
-                'attribute names the earlier attribute statement that set the same key first and the failing one second, and when the failure comes '
-                "out of a thunk or scoped definition the deferred statement's context is not added (lazy_deferred_error_cites_own_statement, "
-                'lazy_eval_phase_error_cites_deferred); forcing cites the debug info of the innermost thunk / pending scoped definition whose own '
-                'body failed without statement context, duplicate scoped definitions name the earlier one first, and no enclosing with_context '
-                'changes such an error (lazy_thunk_error_cites_creator, lazy_value_error_cites_creator, lazy_creator_context_wins, '
-                'lazy_thunk_error_not_plain); in the execution phase an error cites the nearest enclosing top-level statement or direct child of a '
-                'scan arm whose own run returned the cause without statement context - for failures in if/for bodies the enclosing statement, not '
-                'the nested one - or the creator of an eagerly forced value (lazy_stmt_error_cites_statement, lazy_exec_error_cites_statement); '
-                'everything a statement stores carries its own error context or that of a statement nested in it '
-                '(lazy_created_values_cite_statement); a whole run from the initial state has exactly these cases (lazy_run_error_cites). RENDERING: '
-                'Model/ErrRender.v models display_pretty and the plain Display of execution/error.rs on the chain the Rust code sees (contexts '
-                'outermost first, Display of the innermost error), for any wording of the phrases; for EVERY statement context of the chain the '
-                'pretty text contains path:row+1:col+1: for the statement, the stanza and the matched node (render_pretty_cites) and the text of the '
-                'cited DSL/source lines whenever the given texts have these rows (render_pretty_shows_lines; otherwise the excerpt is the citation '
-                'and <missing source>: excerpt_missing_source); entries come in chain order numbered 0..n, the innermost error last '
-                '(render_pretty_entries, render_entry_head). Stream C20r walks the real chain of failing runs and compares both texts character by '
-                'character with the model. END TO END: chain_of_error maps the error VALUE of the execution model to the rendered chain (texts the '
-                'model lacks are arbitrary function arguments); error_rendering_cites_all: every statement context of a model error is cited and its '
-                'lines shown; strict_error_rendering_cites / _shows_lines: the text for the error of a strict run cites a statement of the stanza of '
-                "an executed block, that stanza and the block's full-match node position; lazy_error_rendering_cites / _shows_lines: likewise for "
-                "each (valid) context of a lazy run's error. C20r also checks that chain_of_error of the model's error of each run is the real chain "
-                '(code 65). STATEMENT TEXT: Model/AstDisplay.v models the Display impls of ast.rs (display_stmt, display_expr, ...; strings by <str '
-                'as Debug>, `#true`/`#false` print as `true`/`false`, nested blocks as `{ ... }`, every statement ends with ` at (row+1, col+1)`); '
-                'stream C20d compares it with format!("{}", stmt) on every statement of every parsed file, C20r on every context of every failing '
-                'run (code 66). Theorems: display_stmt_head (the text starts with the statement keyword), display_stmt_single_line_partial (no line '
-                'break in the text: string constants are escaped; hypothesis: identifiers contain none, true of parsed files), '
-                'display_stmt_ends_with_location, strict_error_rendering_cites_disp / lazy_error_rendering_cites_disp (chain_of_error_disp = '
-                'chain_of_error with the texts computed from the file by stmt_at; under locs_unique the rendering contains display_stmt of the cited '
-                'statement itself), display_stmt_injective_refuted (two different statements with the same text).',
- 'partial': ['the KIND and source position recorded for the matched node are compared by the stream only (the model of the execution identifies '
-             'syntax nodes by index); the RENDERING of a recorded chain is modelled (Model/ErrRender.v, theorems render_pretty_*) and compared '
-             'character by character by stream C20r'],
+         'non-trivial = two-statement context, a Context::Other entry, a missing row or a non-ASCII path. C20: '
+         'generated programs with exactly one injected runtime fault (type error, unknown function, conflicting attribute, undefined edge, bad '
+         'arity, eager faults in if/scan/for sources) at a random statement position and depth, plus naturally failing generated programs; both '
+         'modes; non-trivial = fault at depth >= 1 or a two-statement (conflict) context'
+         '. C20d: 7 hand-written programs (every statement and expression kind, strings with quotes, backslashes, newlines, cont'
+         'rols, DEL, and non-ASCII characters that <str as Debug> escapes: U+0301, U+200B, U+FEFF, U+2028, U+00A0, U+E000, U+008'
+         '5) and the texts of the C07 generators (AST-directed incl. nested comprehensions, odd identifiers and string constants'
+         '; re-laid-out gen_program) and of the execution generator, parsed WITHOUT the checker; non-trivial = nested statements'
+         ' and a string constant / scan pattern with a character that needs escaping or is not ASCII',
+ 'explanation': "Theorems. STRICT: the error of a run is the bare cancellation or comes from one (stanza, match) block and sits in ONE statement "
+                "context carrying the stanza's location, the block's full-match node and the location of a statement s' of that stanza (any "
+                "nesting depth) that failed directly: the cause (possibly inside Context::Other for scan arms) is the error returned by a run of "
+                "s' itself which carries no statement context, while the error of a nested block is never without statement context — so the "
+                "cited statement is the innermost failing one (strict_error_stmt_loc, strict_file_error_stmt_loc, strict_nested_error_not_plain). "
+                "LAZY: an error of both phases is the bare cancellation or sits in one statement context, or two for a conflict (duplicate "
+                "attribute / scoped variable); the cause is unwrapped and EVERY context is a valid context of the run: stanza location and "
+                "first full-match node of an executed (stanza, match) pair and the location of a statement of that stanza at any depth (the "
+                "failing statement or one enclosing it); no non-cancellation error escapes without a statement context "
+                "(lazy_error_ctx_valid, lazy_run_error_ctx_valid; state invariant lazy_ctx_invariant). The innermost context wins. "
+                "LAZY, WHICH statement is cited (all programs, states and fuels): a deferred edge/attr/print that fails when evaluated cites "
+                "exactly its own debug info around a cause without statement context, a duplicate attribute names the earlier attribute "
+                "statement that set the same key first and the failing one second, and when the failure comes out of a thunk or scoped "
+                "definition the deferred statement's context is not added (lazy_deferred_error_cites_own_statement, "
+                "lazy_eval_phase_error_cites_deferred); forcing cites the debug info of the innermost thunk / pending scoped definition whose "
+                "own body failed without statement context, duplicate scoped definitions name the earlier one first, and no enclosing "
+                "with_context changes such an error (lazy_thunk_error_cites_creator, lazy_value_error_cites_creator, lazy_creator_context_wins, "
+                "lazy_thunk_error_not_plain); in the execution phase an error cites the nearest enclosing top-level statement or direct child "
+                "of a scan arm whose own run returned the cause without statement context - for failures in if/for bodies the enclosing "
+                "statement, not the nested one - or the creator of an eagerly forced value (lazy_stmt_error_cites_statement, "
+                "lazy_exec_error_cites_statement); everything a statement stores carries its own error context or that of a statement nested "
+                "in it (lazy_created_values_cite_statement); a whole run from the initial state has exactly these cases (lazy_run_error_cites). "
+                "RENDERING: Model/ErrRender.v models display_pretty and the plain Display of execution/error.rs on the chain the Rust "
+                "code sees (contexts outermost first, Display of the innermost error), for any wording of the phrases; for EVERY "
+                "statement context of the chain the pretty text contains path:row+1:col+1: for the statement, the stanza and the "
+                "matched node (render_pretty_cites) and the text of the cited DSL/source lines whenever the given texts have these "
+                "rows (render_pretty_shows_lines; otherwise the excerpt is the citation and <missing source>: excerpt_missing_source); "
+                "entries come in chain order numbered 0..n, the innermost error last (render_pretty_entries, render_entry_head). "
+                "Stream C20r walks the real chain of failing runs and compares both texts character by character with the model. "
+                "END TO END: chain_of_error maps the error VALUE of the execution model to the rendered chain (texts the model lacks are "
+                "arbitrary function arguments); error_rendering_cites_all: every statement context of a model error is cited and its "
+                "lines shown; strict_error_rendering_cites / _shows_lines: the text for the error of a strict run cites a statement of "
+                "the stanza of an executed block, that stanza and the block's full-match node position; lazy_error_rendering_cites / "
+                "_shows_lines: likewise for each (valid) context of a lazy run's error. C20r also checks that chain_of_error of the "
+                "model's error of each run is the real chain (code 65)."
+                ' STATEMENT TEXT: Model/AstDisplay.v models the Display impls of ast.rs (display_stmt, display_expr, ...; strings by <s'
+                'tr as Debug>, `#true`/`#false` print as `true`/`false`, nested blocks as `{ ... }`, every statement ends with ` at (ro'
+                'w+1, col+1)`); stream C20d compares it with format!("{}", stmt) on every statement of every parsed file, C20r on every'
+                ' context of every failing run (code 66). Theorems: display_stmt_head (the text starts with the statement keyword), dis'
+                'play_stmt_single_line_partial (no line break in the text: string constants are escaped; hypothesis: identifiers contai'
+                'n none, true of parsed files), display_stmt_ends_with_location, strict_error_rendering_cites_disp / lazy_error_renderi'
+                'ng_cites_disp (chain_of_error_disp = chain_of_error with the texts computed from the file by stmt_at; under locs_uniqu'
+                'e the rendering contains display_stmt of the cited statement itself), display_stmt_injective_refuted (two different st'
+                'atements with the same text).',
+ 'partial': ['the KIND and source position recorded for the matched node are compared by the stream only (the model of the execution '
+             'identifies syntax nodes by index); the RENDERING of a recorded chain is modelled (Model/ErrRender.v, theorems '
+             'render_pretty_*) and compared character by character by stream C20r'],
  'assumptions': ['tree-sitter queries are an external: raw matches are recorded by calling QueryCursor::matches directly on the stanza queries and '
                  'on the merged file query',
                  'regex crate: modelled by Model/Regex.v on the generated sub-language (validated by stream C10rx); stdlib functions: Model/Stdlib.v '
                  '(validated by C13)',
                  'syntax nodes are identified by preorder index (KeyInjective: node ids distinct modulo 2^32, checked per tree in C04)',
                  'errors returned by caller-supplied functions are plain errors',
-                 'rendering: the Display of the innermost error is an opaque string; the Display of a statement is modelled (Model/AstDisplay.v) '
-                 'except for the Unicode table behind <str as Debug> (which non-ASCII characters are escaped: passed per case, as for C14); paths '
-                 'are valid UTF-8 (to_string_lossy is the identity); built without the term-colors feature; Excerpt::gutter_width (f64 log10) is the '
-                 'number of decimal digits of row+1; the wording of the phrases is a parameter of the model, read off the implementation once per '
-                 'run on a fixed two-statement conflict (tag phrases_read_off_the_implementation:k/11; pinned wording as fallback); the chain is '
-                 'read from the Debug rendering of each Context (the type is private to the crate) and validated by printing it back (code 64)']}
+                 'rendering: the Display of the innermost error is an opaque string; the Display of a statement is modelled (Model/AstDi'
+                 'splay.v) except for the Unicode table behind <str as Debug> (which non-ASCII characters are escaped: passed per case, '
+                 'as for C14)'
+                 '; paths are valid UTF-8 '
+                 '(to_string_lossy is the identity); built without the term-colors feature; Excerpt::gutter_width (f64 log10) is the '
+                 'number of decimal digits of row+1; the wording of the phrases is a parameter of the model, read off the implementation '
+                 'once per run on a fixed two-statement conflict (tag phrases_read_off_the_implementation:k/11; pinned wording as fallback); '
+                 'the chain is read from the Debug rendering of each Context (the type is private to the crate) and validated by '
+                 'printing it back (code 64)'],
+ 'extra_props': ['C20disp']}
